@@ -38,8 +38,8 @@ def printAsciiBody : Bool → Bytes → Bytes
 def printSizeBounds (mn mx : Int) : Bytes :=
   if mn == 0 && mx == -1 then []
   else if mn == mx then [91] ++ intDec mx ++ [93]
-  else if mx == -1 then [91] ++ intDec mn ++ str "..]"
-  else [91] ++ intDec mn ++ str ".." ++ intDec mx ++ [93]
+  else if mx == -1 then [91] ++ intDec mn ++ [46, 46, 93]
+  else [91] ++ intDec mn ++ [46, 46] ++ intDec mx ++ [93]
 
 def printBool (b : Bool) : Bytes := if b then [84] else [70]
 def printBin (v : Nat) : Bytes := str "0b" ++ binDigits v
